@@ -335,7 +335,7 @@ fn arbitrary(seed: u64, idx: u64, rep: &mut Report) {
 }
 
 /// every header with one field wrong; lengths at the bound
-fn header_fields(rep: &mut Report) {
+fn header_cases() -> Vec<([u8; 12], &'static str)> {
     let good = FrameHeader::new(copia::MessageType::Ping, 8).encode();
     let mut cases: Vec<([u8; 12], &'static str)> = Vec::new();
     for ty in 0..=255u8 {
@@ -365,6 +365,11 @@ fn header_fields(rep: &mut Report) {
         h[10..12].copy_from_slice(&f.to_le_bytes());
         cases.push((h, "flags"));
     }
+    cases
+}
+
+fn header_fields(rep: &mut Report) {
+    let cases = header_cases();
     for (h, field) in cases {
         rep.evaluations += 1;
         let want = parse_header(&h).is_some();
@@ -378,6 +383,76 @@ fn header_fields(rep: &mut Report) {
             rep.violation(&format!("C20|Codec::read_message|accepted-bad-header|{field}"), json!({"header": hex(&h)}));
         }
     }
+}
+
+/// A bad header is an error WHEREVER it stands in a stream: followed by a payload and valid frames, by a valid frame
+/// at once, with a valid frame embedded in its own payload, after a valid first frame, or as text in front of a valid
+/// frame (a login banner). A reader that skips ahead to the next thing that looks like a frame accepts what the
+/// statement says is always an error.
+fn header_in_stream(rep: &mut Report) {
+    let codec = Codec::new();
+    let mut good = Vec::new();
+    let first = Message::Ping { seq: 7 };
+    let follow = Message::Ack { file_id: 9, success: true, message: Some("after".into()) };
+    if codec.write_message(&mut good, &first).is_err() {
+        return;
+    }
+    let mut good2 = Vec::new();
+    if codec.write_message(&mut good2, &follow).is_err() {
+        return;
+    }
+    let payload = good[12..].to_vec();
+    let mut streams: Vec<(Vec<u8>, usize, &'static str, &'static str)> = Vec::new(); // (bytes, valid frames before the bad header, field, shape)
+    for (h, field) in header_cases() {
+        if parse_header(&h).is_some() {
+            continue;
+        }
+        let mut a = h.to_vec();
+        a.extend_from_slice(&payload);
+        a.extend_from_slice(&good2);
+        a.extend_from_slice(&good);
+        streams.push((a, 0, field, "bad+payload+valid-frames"));
+        let mut b = h.to_vec();
+        b.extend_from_slice(&good2);
+        streams.push((b, 0, field, "bad+valid-frame"));
+        let mut c = good.clone();
+        c.extend_from_slice(&h);
+        c.extend_from_slice(&payload);
+        c.extend_from_slice(&good2);
+        streams.push((c, 1, field, "valid+bad+payload+valid"));
+        let mut d = h.to_vec();
+        d.extend_from_slice(&[0u8; 100]);
+        d.extend_from_slice(&good2);
+        d.extend_from_slice(&[0u8; 64]);
+        streams.push((d, 0, field, "bad+padding+valid-frame"));
+    }
+    for banner in [&b"Welcome to host\n"[..], &b"Last login: Sat Sep 26 05:00:00 2026 from 10.0.0.1\r\n"[..], &b"\n"[..], &[0u8; 3][..], &b"COP"[..], &[0xFFu8; 4095][..], &[0x20u8; 5000][..]] {
+        for n in [banner.len(), banner.len().min(11), 1] {
+            let mut e = banner[..n.min(banner.len())].to_vec();
+            e.extend_from_slice(&good);
+            e.extend_from_slice(&good2);
+            if parse_header(&e).is_none() {
+                streams.push((e, 0, "magic", "text-before-valid-frame"));
+            }
+        }
+    }
+    for (bytes, before, field, shape) in streams {
+        rep.evaluations += 1;
+        let b2 = bytes.clone();
+        let got = judge_decode("Codec::read_message", shape, &bytes, rep, move || {
+            let mut c = Codec::new();
+            let mut rd = Cursor::new(&b2[..]);
+            for _ in 0..before {
+                c.read_message(&mut rd).map_err(|e| format!("valid leading frame refused: {e}"))?;
+            }
+            c.read_message(&mut rd).map_err(|e| e.to_string())
+        });
+        if got == "value" {
+            rep.violation(&format!("C20|Codec::read_message|accepted-bad-header-in-stream|{field}|{shape}"), json!({"head": hex(&bytes[..bytes.len().min(40)]), "valid_frames_before": before}));
+        }
+        rep.distinct.insert(format!("hdr-in-stream|{field}|{shape}"));
+    }
+    rep.count("bad_headers_inside_streams", 1);
 }
 
 /// bincode bodies with huge declared lengths at every Vec / String position
@@ -775,6 +850,7 @@ pub fn run(seed: u64, thorough: bool, cases: Option<u64>, work: &Path, stage: &s
         } else {
             rep.merge(par_cases(if thorough { 60_000 } else { 6000 }, |i, r| arbitrary(seed, i, r)));
             header_fields(&mut rep);
+            header_in_stream(&mut rep);
             huge_lengths(seed, &mut rep);
         }
     }
